@@ -21,6 +21,7 @@ On request of a property module (hooks, all through the Exec object `res.ex`):
   map_pi_literals(ex)        float/double literals that are k*pi/4 (correctly rounded, or folded T(k)*T(pi)) denote k*pi/4
   ex.trig_domain = True      acos/asin outside [-1,1] becomes a 'domain' side obligation
   ex.trig_auto_sum = True    addition formulas are instantiated automatically for every multi-term argument
+  ex.trig_congruence = False congruence axioms between syntactically different arguments (quadratically many) are not emitted
 """
 import z3, struct
 from fractions import Fraction
@@ -146,7 +147,7 @@ def trig_var(ex, fn, argt, _depth=0):
     v = ex.fresh_real(fn); tab[key] = (v, argt)
     if polys is not None: ptab[pkey] = v
     # congruence with variables whose argument is syntactically different but may be equal in value
-    for k2, (v2, a2) in list(tab.items()) if polys is not None else ():     # (If-arguments are defined by lifting, see _facts)
+    for k2, (v2, a2) in list(tab.items()) if (polys is not None and getattr(ex, 'trig_congruence', True)) else ():     # (If-arguments are defined by lifting, see _facts)
         if k2[0] == fn and k2 != key and len(a2) == len(argt) and v2 is not v and all(_find_ite(x) is None for x in a2):
             ex.axioms.append(z3.Implies(z3.And(*[p == q for p, q in zip(a2, argt)]), v2 == v))
     if _depth < 24: _facts(ex, fn, argt, polys, v, _depth + 1)
